@@ -9,7 +9,7 @@ echo "demo on clean tree: exit $(run_demo)"
 git -C "$wt" apply "$d/patch.diff" || { echo "PATCH DOES NOT APPLY"; exit 3; }
 echo "files touched: $(git -C "$wt" diff --stat | tail -1)"
 echo "demo with patch:    exit $(run_demo)"; tail -3 /var/tmp/seed_demo.log | cut -c1-300
-mkdir -p /var/tmp/seedhome && rm -rf /var/tmp/seedhome/.streamflow; (cd "$wt" && HOME=/var/tmp/seedhome PYTHONPATH="$wt" timeout 2400 /venv/bin/python -m pytest -q -p no:cacheprovider --timeout=900 --continue-on-collection-errors --junitxml=/var/tmp/seed_junit.xml -n 8 >/var/tmp/seed_tests.log 2>&1)
+mkdir -p /var/tmp/seedhome && rm -rf /var/tmp/seedhome/.streamflow; (cd "$wt" && HOME=/var/tmp/seedhome PYTHONPATH="$wt" timeout 2400 /venv/bin/python -m pytest -q -p no:cacheprovider --timeout=900 --continue-on-collection-errors --junitxml=/var/tmp/seed_junit.xml -n 6 $(cat /verif/tools/stable_ids.txt) >/var/tmp/seed_tests.log 2>&1)
 python3 - <<'PY'
 import json, xml.etree.ElementTree as ET
 stable=set(json.load(open('/root/.vp/BASELINE.json'))['stable_pass'])
